@@ -219,15 +219,18 @@ def disp2eig_obligations(chk, d2e, tier, rng):
             chk.violation("disp2eig:complex-norm", "complex displacement rows are not normalised with the Hermitian norm", {})
         else:
             chk.inconclusive(name, "complex-pair model not executable (%s)" % ex_)
-    # dimension mismatch
-    try:
-        d2e.evec_disp2eig(numpy.zeros((2, 5)), [1.0, 2.0])
-        raised = False
-    except RuntimeError:
-        raised = True
-    chk.obligation("disp2eig: shape 3N mismatch raises RuntimeError", "unsat" if raised else "sat", kind="raises", logic="concrete")
-    if not raised:
-        chk.violation("disp2eig:accepts-mismatch", "evec_disp2eig accepts a (2,5) matrix with 2 masses", {})
+    # dimension mismatches: the second dimension must be 3 x (number of masses) -- also when the element count happens to be divisible by it
+    accepted = []
+    for shape, nm in (((2, 5), 2), ((3, 6), 3), ((6, 6), 3), ((4, 3), 2), ((2, 12), 2), ((1, 3), 2), ((9, 4), 3)):
+        try:
+            d2e.evec_disp2eig(numpy.arange(1.0, 1.0 + shape[0] * shape[1]).reshape(shape), [1.0 + i for i in range(nm)])
+            accepted.append((shape, nm))
+        except Exception:
+            pass
+    chk.obligation("disp2eig: a matrix whose second dimension is not 3 x (number of masses) is rejected [7 shapes, including element counts "
+                   "divisible by 3N]", "unsat" if not accepted else "sat", kind="raises", logic="concrete")
+    if accepted:
+        chk.violation("disp2eig:accepts-mismatch", "evec_disp2eig accepts a %s matrix with %d masses" % accepted[0], dict(accepted=[list(map(str, a)) for a in accepted]))
 
 
 def replay_d2e(chk, d2e, M, N, rng, what, env=None):
